@@ -150,11 +150,52 @@ def check_module(res, c, T):
             return
         for path, x, y in snapshot.diff(S_new, build.norm_module(snapshot.snap_module(cl3, "synth"), "after"))[:3]:
             res.violation(f"C02:resave-stale-loaded:{T}:{snapshot.field_key(path)}", f"{T}: loaded instance edited in place {applied[:4]} then saved: {path}: object {x}, file {y}", desc)
+    if T in ("Sampler", "MetaModule"):
+        failed_then_repaired(res, T, m, desc)
     # unit coverage
     t = spec.load()[T]
     for sc in t.controllers:
         if sc.kind == "dependent":
             res.seen("units_exercised", f"{T}.{sc.name}@{c.ad['controllers'][sc.depends_on]}")
+
+
+def failed_then_repaired(res, T, m, desc):
+    """The types that carry other objects inside (Sampler: an effect synth; MetaModule: a project): a save that fails because
+    something inside cannot be written (an effect synth without a module refuses, as it must) leaves nothing behind - with
+    the cause removed the module round-trips as it did before."""
+    import rv.api as api
+    cl = m.clone()
+    try:
+        good = build.norm_module(snapshot.snap_module(cl, "synth"), "before")
+    except Exception:
+        return
+    if T == "Sampler":
+        keep, holder, attr, bad = cl.effect, cl, "effect", api.Synth()      # an effect that is a synth without a module
+    else:
+        keep, holder, attr, bad = cl.project.initial_bpm, cl.project, "initial_bpm", 120.5      # a field that cannot be packed
+    setattr(holder, attr, bad)
+    failed = 0
+    for how in ("clone", "synth", "project"):
+        try:
+            if how == "clone":
+                cl.clone()
+            elif how == "synth":
+                api.Synth(cl).read()
+            else:
+                api.Synth(cl).write_to(BytesIO())
+        except Exception:
+            failed += 1
+    setattr(holder, attr, keep)
+    if not failed:
+        res.count("failed_save_did_not_fail")
+        return
+    res.count("failed_saves_then_repaired")
+    try:
+        again = cl.clone()
+    except Exception as e:
+        res.violation(f"C02:clone-raises-after-failed-save:{T}:{workload.exc_key(e)}", f"{T}: {failed} saves failed (module-less effect synth inside); with the effect put right clone() raises {e!r}", desc)
+        return
+    compare(res, T, "clone-after-failed-save", good, build.norm_module(snapshot.snap_module(again, "synth"), "after"), desc)
 
 
 def empty_synth(res):
